@@ -83,6 +83,9 @@ Outcome(b, n) ==
     [] b = "task_sched"     -> Val(n + 8)
     [] b = "task_contract"  -> Val(n + 9)
     [] b = "task_sched_then" -> Val(n + 11)
+    [] b = "void_hop"       -> Val(n + 13)     \* the callback returns void (a Future<void> / Task<void> step) and a no-argument
+                                               \* callback attached inline right behind it returns to the value type
+    [] b = "void_throw"     -> Exc(5)          \* the void callback throws: the no-argument callback behind it is skipped
     [] b = "task_sched_stopped" -> Err        \* a returned Task whose head is scheduled on the stopped inline executor
     [] b = "shared_cached_exc" -> Exc(2)       \* a ready SharedFuture that somebody else also holds (a cache)
 
@@ -91,6 +94,8 @@ InnerAllocs(b) == CASE b \in {"fut_ready", "fut_pending", "fut_err", "shared_rea
                               "task_make", "task_sched", "task_contract", "shared_cached_exc", "task_sched_stopped"} -> 1
                     [] b = "task_sched_then" -> 2
                     [] OTHER -> 0
+
+VoidBehs == {"void_hop", "void_throw"}       \* two library steps (two cores) per program step; value / Result callbacks only
 
 Runs(arg, r) == \/ arg = "R"
                 \/ arg = "V" /\ r.st = "val"
@@ -158,12 +163,12 @@ StepFn(acc, i, s, rej) ==
                  !.ran = IF run THEN Append(@, IF ex \notin Execs THEN "-" ELSE IF sd[2] THEN "drop:" \o ex ELSE ex) ELSE @,
                  !.inh = IF s.att \in Execs THEN s.att ELSE @,
                  !.on = (@ \/ s.att \in Execs),
-                 !.allocs = @ + 1 + (IF run THEN InnerAllocs(s.beh) ELSE 0),
+                 !.allocs = @ + 1 + (IF s.beh \in VoidBehs THEN 1 ELSE 0) + (IF run THEN InnerAllocs(s.beh) ELSE 0),
                  \* the only copy of a value the library may make: reading it out of a SharedFuture's state (which keeps it)
                  !.copies = @ + (IF run /\ s.beh \in {"shared_ready", "shared_pending"} THEN 1 ELSE 0)
                               + (IF acc.shared /\ input.st = "val" /\ (~run \/ s.arg = "V") THEN 1 ELSE 0),
                  !.shared = FALSE,
-                 !.valid = (@ /\ ok)]
+                 !.valid = (@ /\ ok /\ (s.beh \in VoidBehs => s.arg \in {"V", "R"}))]
 
 RECURSIVE Fold(_, _, _, _)
 Fold(acc, steps, i, rej) == IF i > Len(steps) THEN acc ELSE Fold(StepFn(acc, i, steps[i], rej), steps, i + 1, rej)
@@ -250,7 +255,9 @@ CancelRunsNoValueCallback ==
         /\ prog.steps[out.invoked[k]].arg \in {"V", "X"} =>
               \E j \in 1..(k - 1) : prog.steps[out.invoked[j]].arg \in {"E", "R"}
 \* C20: allocation bound = one per step (incl. the source) + the inner asynchronous objects the callbacks create
-AllocBound == out.allocs <= 1 + Len(prog.steps) + 2 * Len(out.invoked)
+\* (a void program step is two library steps)
+LibSteps == Len(prog.steps) + Cardinality({i \in 1..Len(prog.steps) : prog.steps[i].beh \in VoidBehs})
+AllocBound == out.allocs <= 1 + LibSteps + 2 * Len(out.invoked)
 
 \* spec -> code: print every program with its expected outcome (consumed by the driver)
 Emit == phase = "done" => PrintT(<<"PROG", ToJson([prog |-> prog, out |-> out])>>)
